@@ -13,23 +13,23 @@ FIX_COMMITS = []  # hook commits (none: the checker needs no source hooks)
 # id -> (claimed?, technique, level text, level note, design ref)
 P = {
  "C01": ("static analysis: SSA extraction of every graph-edge rule with dominating guards; value-routing dataflow rules",
-         "Structural necessary conditions, decided for every execution of the enumerated constructs: no edge-creating site joins label-incompatible vertices (type identical or provider-implements-consumer under an interface-kind guard; subtype equal or empty on one side; equal names between named vertices); vertex identity hashes every label; label fields immutable after construction; values routed by the vertex's own label in the path walk, output mapper and executor; no fabricated value outside the redefine flag. The behaviour itself (which value a re-used vertex carries across successive walks, flows through reflect containers) is not decided.",
+         "Structural necessary conditions, decided for every execution of the enumerated constructs: no edge-creating site joins label-incompatible vertices (type identical or provider-implements-consumer under an interface-kind guard; subtype equal or empty on one side; equal names between named vertices); vertex identity hashes every label; label fields immutable after construction; values routed by the vertex's own label in the path walk, output mapper and executor; no fabricated value outside the redefine flag; the implements rule is applied to every candidate without an unreviewed restriction; converter outputs mapped onto the graph are exactly the Result the executor returned for that step, and only Call and the resolver reach the executor. The behaviour itself (which value a re-used vertex carries across successive walks, flows through reflect containers) is not decided.",
          "Trusted: go/ssa + go/types (x/tools v0.29.0), Go map semantics, reflect. Flow-insensitive field reasoning is licensed by the IMMUT rule checked in the same run.", "§4 EDGE/HASH/IMMUT/WALK/OUTMAP/ARGPOP/SIBLING/ORDER/FAB, §5 C01"),
  "C02": ("static analysis: dominance/error-flow rules on the Call pipeline, must-pass guards around the unsatisfied report, termination witness for the resolver",
-         "Decided structurally: target and converters execute only behind nil-error checks of option building, graph building and resolution; pruned requirements always yield the dedicated error; the executor's last-resort guard; cyclic converter dependencies cannot recurse unboundedly. Not decided: that pruning computes exactly the least fixpoint of derivable values.",
-         "Trusted: go/ssa, reflect.Value.Call returns what the function returned.", "§4 ERRFLOW/UNSAT/TERM, §5 C02"),
+         "Decided structurally: target and converters execute only behind nil-error checks of option building, graph building and resolution; pruned requirements always yield the dedicated error; the executor's last-resort guard; every return of Call is an error Result on a non-nil-error branch or exactly the executor's Result after resolution (no memoised shortcut past resolution); edge rules join only label-compatible vertices (an unsatisfiable target cannot look satisfiable through a wrong edge); cyclic converter dependencies cannot recurse unboundedly. Not decided: that pruning computes exactly the least fixpoint of derivable values.",
+         "Trusted: go/ssa, reflect.Value.Call returns what the function returned.", "§4 ERRFLOW/UNSAT/TERM/EDGE/EXEC-X8, §5 C02"),
  "C03": ("static analysis: abstract cost model (Bellman–Ford lower bound over the extracted edge-weight table) plus direct-use rule recognition",
-         "Decided: an exactly matching supplied named value is used directly (direct-use rule in the resolver) or every >=2-edge path is strictly dearer than the direct input edge; for type-only parameters every path through a function vertex costs more than the direct typed route; inputs overwrite the coinciding requirement vertex and hang off the root; path selection uses Dijkstra from the root on the reverse of the same graph. Not decided: which of two equal-cost exact type-only candidates is taken.",
-         "Sound lower-bound argument: every tentative distance Dijkstra holds is the length of a real path. Trusted: go/ssa constant folding of weights.", "§4 PRIO, §5 C03"),
+         "Decided: an exactly matching supplied named value is used directly (direct-use rule in the resolver) or every >=2-edge path is strictly dearer than the direct input edge; for type-only parameters every path through a function vertex costs more than the direct typed route; inputs overwrite the coinciding requirement vertex and hang off the root; path selection uses Dijkstra from the root on the reverse of the same graph; every supplied/generated converter is registered; every vertex added to a call's graph is freshly allocated; removing a vertex leaves no dangling in-edge. Not decided: which of two equal-cost exact type-only candidates is taken.",
+         "Sound lower-bound argument: every tentative distance Dijkstra holds is the length of a real path. Trusted: go/ssa constant folding of weights.", "§4 PRIO/INPUT/EDGE-V/MIRROR-REMOVE, §5 C03"),
  "C04": ("static analysis: Result typestate (Err()==nil dominance), error-identity taint rule, final-error predicate agreement",
-         "Decided: after each converter execution the result's error is checked and returned unchanged before anything else runs; error values on the chain are only returned/stored/boxed, never wrapped; the target executes only on the nil branch; the final-error predicate is type identity at the last position everywhere.", "Trusted: reflect.Value.Call, go/ssa.", "§4 ERRFLOW/ERRPRED, §5 C04"),
+         "Decided: after each converter execution the result's error is checked and returned unchanged before anything else runs; error values on the chain are only returned/stored/boxed, never wrapped; the target executes only on the nil branch; the final-error predicate is type identity at the last position everywhere and Result.Err reports the final output as the error under exactly the reviewed conditions (a typed-nil error is still an error); no per-call cache of converter results.", "Trusted: reflect.Value.Call, go/ssa.", "§4 ERRFLOW/ERRPRED/EXEC-X7, §5 C04"),
  "C05": ("static analysis: five necessary structural conditions (chaining edge class, pruning guard, path search pairing, argument-map plumbing, in-progress-set stack discipline)",
-         "Five necessary structural conditions of chaining only; completeness of chaining and outcome stability over map order are NOT decided (no sound static argument in reach bounds reachability in a runtime-built graph or randomized iteration).", "Each clause is a genuine necessary condition: breaking it breaks chaining for some well-behaved converter set.", "§5 C05"),
+         "Necessary structural conditions of chaining only (chaining and implements edge classes present and unrestricted, every converter registered, pruning guard, path search pairing on a per-parameter private copy, argument-map plumbing, in-progress-set stack discipline); completeness of chaining and outcome stability over map order are NOT decided (no sound static argument in reach bounds reachability in a runtime-built graph or randomized iteration).", "Each clause is a genuine necessary condition: breaking it breaks chaining for some well-behaved converter set.", "§5 C05"),
  "C06": ("static analysis: reachable-panic audit, reflect.Value validity typestate, positional packing agreement, StructOf name uniqueness, termination witnesses",
-         "Decided: every explicit panic reachable from Call/Convert/Redefine is discharged mechanically or by a reviewed invariant table; reflect.Value methods on API inputs are dominated by IsValid; nil options are rejected; slices indexed by struct-field ordinal are sized by the value list; dynamic struct field names are unique; every recursive SCC carries a visited/in-progress witness. Not decided: panics raised inside reflect for other reasons, exhaustion by sheer size.",
+         "Decided: every explicit panic reachable from Call/Convert/Redefine is discharged mechanically or by a reviewed invariant table; reflect.Value methods on API inputs are dominated by IsValid; nil options are rejected; slices indexed by struct-field ordinal are sized by the value list; dynamic struct field names are unique; every recursive SCC carries a visited/in-progress witness and every loop is regular or in the reviewed table; Dijkstra's predecessor map is only written together with a lowered distance on unsettled vertices (acyclic walk); vertex values are assigned only under validity/assignability guards; Remove leaves no dangling edge. Not decided: panics raised inside reflect for other reasons, exhaustion by sheer size.",
          "Trusted: reflect, hclog; reviewed invariant tables are listed in the checker source with one reason each.", "§4 PANIC/REFLVALID/NILOPT/PACK/STRUCTOF/TERM, §5 C06"),
  "C07": ("static analysis: weight-order and discount-loop rules over the extracted edge table",
-         "Decided clauses: the matching-name discount is negative and strictly below every other in-edge weight, applied only to in-edges of same-named value vertices, on a private copy of the graph, and the named requirement edge is cheaper than the typed route. Not decided: optimality of Dijkstra under a negative edge, tie-breaking.", "Trusted: go/ssa constant folding.", "§4 PRIO-W/D/P, §5 C07"),
+         "Decided clauses: the matching-name discount is negative and strictly below every other in-edge weight, applied only to in-edges of same-named value vertices, on a private copy of the graph, and the named requirement edge is cheaper than the typed route; converter results are not cached across positions of one call. Not decided: optimality of Dijkstra under a negative edge, tie-breaking.", "Trusted: go/ssa constant folding.", "§4 PRIO-W/D/P, §5 C07"),
  "C08": ("static analysis: must-pass-edge gating of redefine root edges, input-set provenance, exclusion key-space agreement, output-filter error flow",
          "Decided clauses: the redefine-only root edge is gated by the input filter; only path inputs are recorded in the input set; struct fields are appended only for entries not supplied; rejected outputs return an error before planning; the generated function forwards options and declared inputs to Call. Not decided: that the planning run visits exactly the inputs a real call would use; result equality.", "Known finding D12 (typed supplied inputs use a different hash namespace).", "§4 REDEF, §5 C08"),
  "C09": ("static analysis: who-may-call audit of reflect.Value.Call, must-pass zeroing loop before the planning resolver call, whole-program shared-write audit",
@@ -37,25 +37,25 @@ P = {
  "C10": ("static analysis: structural identity of Convert with Call on a synthesized identity function",
          "Decided: Convert's only in-package callee builds func(T) T whose body returns its parameter, calls Call with its own options unmodified, checks Err() before reading outputs, returns (nil, err) on error. Convert has no resolution logic of its own.", "Trusted: reflect.FuncOf/MakeFunc.", "§4 CONVERT, §5 C10"),
  "C11": ("static analysis: dominance rules around the memoized call, alias rule on Result.out, shared-write audit",
-         "Sequential clause decided structurally (the call is dominated by not(once and cached); under once the store post-dominates the call; the cache is never modified). The concurrent clause is decided negatively: the cache is an unsynchronised shared write (known finding D9).", "Known finding D9.", "§4 ONCE/ALIAS/SHARED, §5 C11"),
+         "Sequential clause decided structurally (the call is dominated by not(once and cached); under once the store post-dominates the call; the cache is never modified; the memo is read by the executor only and Call never returns it ahead of resolution). The concurrent clause is decided negatively: the cache is an unsynchronised shared write (known finding D9).", "Known finding D9.", "§4 ONCE/ALIAS/SHARED, §5 C11"),
  "C12": ("static analysis: exhaustive store audit over both packages with ownership classes",
-         "Decided for all interleavings at once: every store/map update/delete in both packages is classified by owner; writes to shared owners (Func, ValueSet, captured variables of option closures, globals) occur only on objects fresh in the writing function. Outcome-equivalence with a sequential run follows only because all post-construction state is per-call.", "Known finding D9 (Func.onceResult). Trusted: hclog and reflect are thread-safe.", "§4 SHARED/IMMUT, §5 C12"),
+         "Decided for all interleavings at once: every store/map update/delete in both packages is classified by owner; writes to shared owners (Func, ValueSet, captured variables of option closures, globals) occur only on objects fresh in the writing function (or in the private helper of the constructing function); no field of a shared object is handed by address to external code (pools, atomics); package variables are only read after init. Outcome-equivalence with a sequential run follows only because all post-construction state is per-call.", "Known finding D9 (Func.onceResult). Trusted: hclog and reflect are thread-safe.", "§4 SHARED/IMMUT, §5 C12"),
  "C13": ("static analysis: dataflow from requirement/input/converter lists into the error literal and its rendering",
-         "Decided: missing arguments are exactly the requirement vertices no longer in the pruned graph; the input list converts every input vertex; the error literal stores Func, Args, Inputs and Converters (the slice that received every supplied and generated converter); Error() renders every missing argument. Not decided: 'genuinely underivable' beyond 'pruned from the graph'.", "Trusted: go/ssa.", "§4 UNSAT, §5 C13"),
+         "Decided: missing arguments are exactly the requirement vertices no longer in the pruned graph; the input list converts every input vertex; the error literal stores Func, Args, Inputs and Converters (the slice that received every supplied and generated converter); Error() renders every missing argument into the returned message (interprocedural may-flow); Call cannot return a stale success ahead of resolution. Not decided: 'genuinely underivable' beyond 'pruned from the graph'.", "Trusted: go/ssa.", "§4 UNSAT, §5 C13"),
  "C14": ("static analysis: lower-casing dataflow, final-error predicate, validity typestate, tag writer/reader agreement, rejection error paths",
          "Decided clauses: names are always lower-cased; final error excluded by type identity at the last position; non-function/nil values rejected with an error; tag namespace and option keys agree between writers and the reader; documented rejections return errors. Not decided: declaration order, tag parsing details, unexported-field skipping.", "Trusted: reflect.", "§4 LOWER/ERRPRED/REFLVALID/TAGS, §5 C14"),
  "C15": ("static analysis: positional packing agreement across the five packing sites, tag agreement, adapter error plumbing",
-         "Decided clauses: slices indexed by field ordinal are sized by and filled from the ordered value list; tag writers and reader agree; FromSignature cannot fail; the adapter appends the callback's error as the final result. Not decided: value equality through reflect, lookup semantics of Typed/TypedSubtype.", "Trusted: reflect.", "§4 PACK/TAGS, §5 C15"),
+         "Decided clauses: slices indexed by field ordinal are sized by and filled from the ordered value list; tag writers and reader agree; FromSignature cannot fail; the adapter appends the callback's error as the final result; value-set accessors scan/look up by the value's own label; no value set or parsed struct is cached in package state. Not decided: value equality through reflect, lookup semantics of Typed/TypedSubtype.", "Trusted: reflect.", "§4 PACK/TAGS, §5 C15"),
  "C16": ("static analysis: lower-casing dataflow, option-order recogniser, nil-option and nil-value guards",
-         "Decided: keys of the builder's named maps are ToLower results; defaults precede call options in the slice handed to the applier which iterates in increasing order; nil options return an error; nil values are ignored; accumulation is plain map assignment. Not decided: permutation invariance beyond map semantics and C03.", "Trusted: Go map semantics.", "§4 LOWER/OPTORDER/NILOPT, §5 C16"),
+         "Decided: keys of the builder's named maps are ToLower results; defaults precede call options in the slice handed to the applier which iterates in increasing order; nil options return an error; nil values are ignored; accumulation is plain map assignment; an invalid (nil) value in a multi-value option skips only itself. Not decided: permutation invariance beyond map semantics and C03.", "Trusted: Go map semantics.", "§4 LOWER/OPTORDER/NILOPT, §5 C16"),
  "C17": ("static analysis: final-error predicate agreement, Result literal discipline, Len/Out arithmetic",
-         "Decided: every comparison against the error type is type identity at index len-1; every Result construction sets exactly one of out/buildErr; Len = len(out) minus one iff hasError; Out(i) indexes out with i.", "Trusted: reflect.", "§4 ERRPRED/RESULTLIT/LEN, §5 C17"),
+         "Decided: every comparison against the error type is type identity at index len-1; every Result construction sets exactly one of out/buildErr; Len = len(out) minus one iff hasError; Out(i) indexes out with i; Err reports the final output under exactly the reviewed conditions; Call returns the executor's Result unmodified.", "Trusted: reflect.", "§4 ERRPRED/RESULTLIT/LEN, §5 C17"),
  "C18": ("static analysis: heap-position bookkeeping and relaxation pairing rules on Dijkstra",
-         "Decided clauses: Swap maintains index==position; every distance store is followed by a heap repair before the next pop and paired with the predecessor store; the stored distance is u.distance+weight guarded by a strict/non-strict less and by 'not visited'; source initialised to 0 before heap.Init; results read from the items; path reconstruction follows the predecessor map. NOT decided: exactness on all graphs.", "Trusted: container/heap.", "§4 HEAP, §5 C18"),
+         "Decided clauses: Swap maintains index==position; every distance store is followed by a heap repair before the next pop and paired with the predecessor store; the stored distance is u.distance+weight guarded by a strict/non-strict less and by 'not visited'; source initialised to 0 before heap.Init; results read from the items; path reconstruction follows the predecessor map; queue items are allocated per search and a predecessor is written only together with a strictly lowered distance; read-only graph functions mutate nothing. NOT decided: exactness on all graphs.", "Trusted: container/heap.", "§4 HEAP/PURITY, §5 C18"),
  "C19": ("static analysis: paired-update (mirror) rules, copy freshness, purity of read-only methods, hash-key discipline",
          "Decided: every inner-map update/delete on adjacencyOut[a][b] has its twin on adjacencyIn[b][a] with the same weight in the same function; Remove deletes mirrored entries of every neighbour and the hash entry; Add keeps/AddOverwrite replaces the hash entry and neither touches edges; Copy stores only fresh inner maps; Reverse swaps the two fields and shares hash; read-only methods perform no update. Agreement with an adjacency model on all histories then follows from Go's map semantics (trusted).", "Trusted: Go map semantics.", "§4 MIRROR/COPY/PURITY, §5 C19"),
- "C20": ("static analysis: visited-set discipline of DFS, copy-only mutation and leftover-edge scan of Kahn",
-         "Decided clauses: visited[v] is stored before successors are iterated, the callback runs only for undiscovered successors, descent only through the next closure; KahnSort mutates only its copy and its normal return is dominated by the leftover-edge scan whose positive branch panics. Tarjan's partition and the DAG relaxation's agreement with Dijkstra are NOT decided.", "Trusted: Go map semantics.", "§4 DFSV/KAHN, §5 C20"),
+ "C20": ("static analysis: visited-set discipline of DFS, copy-only mutation and leftover-edge scan of Kahn, bookkeeping obligations of Tarjan's SCC routine and of the DAG relaxation, heap discipline of the Dijkstra it is compared with",
+         "Decided clauses: visited[v] is stored before successors are iterated, the callback runs only for undiscovered successors, descent only through the next closure; KahnSort mutates only its copy and its normal return is dominated by the leftover-edge scan whose positive branch panics; Tarjan: index/low-link bookkeeping, stack-membership test for visited successors, root test, pop-until-self, driver over all unvisited vertices; TopoShortestPath: candidate = dist[u]+w over out-edges in the given order, update only if absent or better; Dijkstra's repair/visited/predecessor discipline. These are necessary conditions on the shape of the algorithms: the partition as a theorem and agreement of the two shortest-path routines on all DAGs are NOT decided.", "Trusted: Go map semantics, container/heap.", "§4 DFSV/KAHN/TARJAN/TOPO/HEAP, §5 C20"),
 }
 
 def built(pid):
